@@ -50,6 +50,11 @@ CLAIMED = {
          "Tumbling placement (WindowedStream, WindowManager, TimeWindow, StreamAlphaNode), sliding retention after every record (nothing older than the span, nothing younger dropped except oldest-first by the cap, either notion of oldest accepted) and count/sum/average/min/max against a fold over exactly the window's events.",
          "StreamAlphaNode judged relative to the injected clock (hook); NaN payloads and durations < 1 ms outside the domain; buffer order not judged.",
          "DESIGN.md §6 C12"),
+ "C14": ("exploration",
+         "differential property testing over ALL arrival interleavings: generated and exhaustively enumerated pairs of event sequences, every merge of the two arrival orders executed, compared as multisets with a nested-loop reference join; eviction-aware validity predicate when watermarks advance",
+         "Without watermark advances the concatenated output of process_left/right equals the reference join exactly (nothing missing, nothing twice) for every one of up to 70 merges per pair, and a final update_watermark emits nothing; with advances the output is a duplicate-free subset of the reference that contains every pair whose earlier element was not yet evictable. Also through StreamJoinManager routing.",
+         "Timestamps in seconds (the node compares with Duration::as_secs), event ids unique per stream, non-decreasing watermarks; outer joins and session/count windows out of scope.",
+         "DESIGN.md §6 C14"),
  "C15": ("exploration",
          "exhaustive small-scope enumeration of knowledge-base operation sequences against an ordered-list model, and Wing-Gong linearizability checking of recorded 3-thread histories under a schedule-perturbation hook",
          "All 25^4 (quick) / 25^5 (thorough) operation sequences and 60k-1M random ones are compared observer by observer with the model after every step; 16k-50k concurrent programs x 50-500 repetitions are checked for linearizability against the same model, plus deadlock detection.",
